@@ -132,7 +132,7 @@ func c03CommitOrder(c *Ctx) {
 	n := 0
 	for _, b := range fn.Blocks {
 		ret, ok := b.Instrs[len(b.Instrs)-1].(*ssa.Return)
-		if !ok || !an.IsNilConst(ret.Results[len(ret.Results)-1]) {
+		if !ok || !an.IsNilConst(an.RetErr(ret)) {
 			continue
 		}
 		n++
@@ -898,7 +898,7 @@ func c03MergeInserts(c *Ctx) {
 		k := 0
 		for _, b := range fn.Blocks {
 			ret, ok := b.Instrs[len(b.Instrs)-1].(*ssa.Return)
-			if !ok || !an.IsNilConst(ret.Results[len(ret.Results)-1]) {
+			if !ok || !an.IsNilConst(an.RetErr(ret)) {
 				continue
 			}
 			k++
